@@ -3,9 +3,23 @@ against PewModel/Export.lean.
 
 Values travel as bit tokens (core.tok): the text part compares finite values, zeros (signed) and
 infinities bit-exactly and every NaN as one canonical token (the text form of a NaN carries no
-payload); the VTK part compares raw bit patterns including NaN payloads.  The VTK file written by
-pewlib is read by the small independent reader `read_vti` below (header XML + appended raw blocks);
-pewlib has no VTK reader."""
+payload); the VTK part compares raw bit patterns including NaN payloads.
+
+Text.  The Lean side never parses or prints a number: `fmt` is the identity on the token strings Python
+produced ('%.18g' % x for saved files), `conv` is applied by the harness (`pyfloat`: Python's float, NaN
+when it raises) to the field strings the Lean loader model (`loadFields`) cuts out of a file.  For a
+saved image the driver gets the characters pewlib wrote: model = the loader model on those characters,
+spec = the image, impl = what pewlib's load returned; the Lean rendering `saveText` of the same tokens is
+compared with the file byte for byte (equal: the round-trip theorem speaks about this very file; unequal:
+hypothesis-excluded, the comparison through the loader model remains).  Files other tools might write
+are described line by line (`foreignFile`, class predicate `foreignOk` decided by the driver) or given as
+raw text; both pewlib and the Lean loader model read them, as written and with ';'/tab replaced by ','.
+
+VTK.  The file written by pewlib is read by the small independent reader `read_vti` below (header XML via
+ElementTree + appended raw blocks; pewlib has no VTK reader): impl.  model = the Lean reader `vtkParse` on
+the Lean rendering `vtkRender` plus the blocks found at the declared offsets, spec = `vtkMetaSpec` and
+`vtkBlockSpec`.  The Lean reader is also run on the real header text, and the whole Lean rendering
+(header text, appended words, closing text) is compared with the real file byte for byte."""
 import math
 import re
 import struct
@@ -285,6 +299,164 @@ def switch_features(text):
     return f
 
 
+# ----------------------------------------------------------------------------- text files: tokens, foreign writers
+def pyfloat(field: str) -> float:
+    """genfromtxt's loose float converter: `float(field)`, NaN when that raises ValueError (the model's opaque `conv`)"""
+    try:
+        return float(field)
+    except ValueError:
+        return float("nan")
+
+
+def conv_side(side):
+    """a `loadFields` reply of the driver with its opaque field strings converted by `pyfloat`"""
+    if "raises" in side["loaded"]:
+        return {"raises": True}
+    return {"shape": side["loaded"]["shape"], "data": [ctok(pyfloat(f)) for f in side["loaded"]["fields"]], "dtype": "float64"}
+
+
+def run_load(path):
+    """pewlib's loader on a file: (shape, values as bit tokens with NaN canonical, dtype) or that it raised; whether it
+    warned about an empty file; a note"""
+    import warnings
+
+    from pewlib.io import textimage
+
+    with warnings.catch_warnings(record=True) as caught:
+        warnings.simplefilter("always")
+        try:
+            out = textimage.load(path)
+        except Exception as e:
+            return {"raises": True}, False, f"{type(e).__name__}: {e}"[:200]
+    return ({"shape": list(out.shape), "data": [ctok(v) for v in out.ravel()], "dtype": str(out.dtype)},
+            any("Empty input file" in str(w.message) for w in caught), "")
+
+
+def read_chars(path) -> str:
+    """the characters of a file as pewlib's `path.open("r")` decodes them, line terminators untranslated"""
+    with path.open("r", newline="") as fp:
+        return fp.read()
+
+
+def join_with(seps, fields):
+    """the model's `joinWith`: separators in order, ',' when they run out, surplus separators unused"""
+    out = ""
+    for i, f in enumerate(fields):
+        if i:
+            out += seps[i - 1] if i - 1 < len(seps) else ","
+        out += f
+    return out
+
+
+def foreign_text(lines) -> str:
+    """the model's `foreignFile`, written by the harness from the same line descriptions"""
+    out = ""
+    for ln in lines:
+        out += " " * ln["indent"] + join_with(ln["seps"], [" " * c["before"] + c["token"] + " " * c["after"] for c in ln["cells"]])
+        out += ("#" + ln["comment"] if ln["comment"] is not None else "") + ln["eol"]
+    return out
+
+
+FINITE_FORMS = [repr, lambda v: "%.18g" % v, lambda v: "%.17g" % v, lambda v: "%r" % v, lambda v: "%e" % v, lambda v: "%g" % v,
+                lambda v: "%.3f" % v if abs(v) < 1e15 else repr(v), lambda v: ("+" if v >= 0 else "") + repr(v),
+                lambda v: repr(v).upper(), lambda v: repr(v).replace("e", "E")]
+SPECIAL_FORMS = {"nan": ["nan", "NaN", "NAN", "+nan", "-nan"], "inf": ["inf", "Infinity", "+inf", "INF", "1e999"],
+                 "-inf": ["-inf", "-Infinity", "-INF", "-1e999"]}
+JUNK_TOKENS = ["", "", "x", "1_0", "0x10", "1..2", "--1", "1e", "١٢", "n/a", "1 2", " ", "1d5", "None"]
+COMMENTS = ["", " comment", "1,2;3", " x # y", "\ttab", ";", " 4.5", "é"]
+
+
+def gen_token(rng) -> str:
+    """one number as another tool might print it"""
+    v = untok(gen_value(rng))
+    if math.isnan(v):
+        return rng.choice(SPECIAL_FORMS["nan"])
+    if math.isinf(v):
+        return rng.choice(SPECIAL_FORMS["inf" if v > 0 else "-inf"])
+    return rng.choice(FINITE_FORMS)(v)
+
+
+def gen_foreign(rng):
+    """a file of the class 'delimiter variant of an image' (sometimes pushed out of it), line by line"""
+    r, c = gen_shape2(rng)
+    sep_style = rng.choice([",", ";", "\t", "mixed", "mixed"])
+    eol_style = rng.choice(["\n", "\n", "\r\n", "\r\n", "\r", "mixed"])
+    pad = rng.random() < 0.5
+    deco = rng.random() < 0.6
+
+    def eol():
+        return rng.choice(["\n", "\r\n", "\r"]) if eol_style == "mixed" else eol_style
+
+    def blank():
+        return {"indent": rng.choice([0, 0, 1, 4]), "cells": [], "seps": [], "eol": eol(),
+                "comment": rng.choice([None, None] + COMMENTS) if rng.random() < 0.7 else None}
+
+    lines = []
+    for _ in range(rng.choice([0, 0, 1, 2]) if deco else 0):  # a header another tool wrote, or leading blank lines
+        lines.append(blank())
+    for i in range(r):
+        cells = [{"before": rng.choice([0, 0, 1, 2]) if pad else 0, "token": gen_token(rng),
+                  "after": rng.choice([0, 0, 1, 3]) if pad else 0} for _ in range(c)]
+        seps = [rng.choice(DELIMS) if sep_style == "mixed" else sep_style for _ in range(c - 1)]
+        lines.append({"indent": rng.choice([0, 0, 0, 2]) if pad else 0, "cells": cells, "seps": seps, "eol": eol(),
+                      "comment": rng.choice(COMMENTS) if deco and rng.random() < 0.25 else None})
+        while deco and rng.random() < 0.2:
+            lines.append(blank())
+    if rng.random() < 0.3:
+        lines[-1]["eol"] = ""  # no terminator after the last line
+    rows = [ln for ln in lines if ln["cells"]]
+    k = rng.random()
+    if k < 0.06:  # a trailing delimiter on every row: one more, empty, column
+        for ln in rows:
+            ln["cells"].append({"before": 0, "token": "", "after": 0})
+            ln["seps"].append(rng.choice(DELIMS))
+    elif k < 0.10:  # ... on one row only: ragged
+        ln = rng.choice(rows)
+        ln["cells"].append({"before": 0, "token": "", "after": 0})
+        ln["seps"].append(rng.choice(DELIMS))
+    elif k < 0.18:  # empty or unparsable fields
+        for _ in range(rng.choice([1, 1, 2])):
+            rng.choice(rng.choice(rows)["cells"])["token"] = rng.choice(JUNK_TOKENS)
+    elif k < 0.21 and c > 1:  # a row one field short
+        ln = rng.choice(rows)
+        ln["cells"].pop()
+        ln["seps"].pop()
+    elif k < 0.23:  # nothing but blank and comment lines
+        lines = [blank() for _ in range(rng.randint(0, 3))]
+    return {"kind": "foreign", "lines": lines}
+
+
+RAW_PIECES = ["1", "2.5", "-3", "1e5", "nan", "inf", "x", "", ",", ",", ";", "\t", " ", "  ", "\n", "\n", "\r\n", "\r", "#", "# c", "0",
+              "-0.0", ",,", ";\n", "\x0c", "\x0b", " ", "é", "\x00", "_", "+", "."]
+
+
+def gen_rawtext(rng):
+    return {"kind": "rawtext", "text": "".join(rng.choice(RAW_PIECES) for _ in range(rng.randint(0, 30)))}
+
+
+def foreign_features(text, lines=None):
+    f = set()
+    if "\r\n" in text:
+        f.add("foreign:crlf")
+    if re.search("\r(?!\n)", text):
+        f.add("foreign:lone-cr")
+    if text and not text.endswith(("\n", "\r")):
+        f.add("foreign:no-final-newline")
+    if "#" in text:
+        f.add("foreign:comment")
+    if re.search(r"(^|[\r\n])[ ]*([\r\n]|$)", text) and text:
+        f.add("foreign:blank-line")
+    if re.search(r"[,;\t][ ]*([\r\n#]|$)", text):
+        f.add("foreign:trailing-delimiter")
+    if re.search(r"(^|[\r\n,;\t])[ ]*[,;\t]", text):
+        f.add("foreign:empty-field")
+    if re.search(r"[ ][,;\t]|[,;\t][ ]|(^|[\r\n])[ ]+[^ \r\n]", text):
+        f.add("foreign:spaces-around-fields")
+    used = {d for d in DELIMS if d in text.split("#")[0]} if lines is None else {s for ln in lines for s in ln["seps"]}
+    f.add("delims:" + ("none" if not used else "mixed" if len(used) > 1 else {",": "comma", ";": "semicolon", "\t": "tab"}[next(iter(used))]))
+    return f
+
+
 # ----------------------------------------------------------------------------- independent VTI reader
 class Malformed(Exception):
     pass
@@ -357,7 +529,8 @@ def read_vti(raw: bytes) -> dict:
         if nbytes % 8 or off + hsize + nbytes > len(body):
             raise Malformed("block size")
         vals = np.frombuffer(body, dtype=bo + "i8", count=nbytes // 8, offset=off + hsize)
-        arrays.append({"name": da.get("Name"), "offset": off, "nbytes": int(nbytes), "values": [int(v) for v in vals]})
+        arrays.append({"name": da.get("Name"), "type": da.get("type"), "format": da.get("format"), "offset": off,
+                       "nbytes": int(nbytes), "values": [int(v) for v in vals]})
         end = max(end, off + hsize + nbytes)
     scal = cds[0].get("Scalars")
     trailer = body[end:]
@@ -365,7 +538,9 @@ def read_vti(raw: bytes) -> dict:
         raise Malformed("trailer after the last block")
     words = [int(v) for v in np.frombuffer(body[:end], dtype=bo + "i8")] if end % 8 == 0 else "misaligned"
     return {"whole": whole, "piece": pext, "origin": origin, "spacing": spacing, "ncells": ncells, "arrays": arrays,
-            "scalars": scal, "words": words}
+            "scalars": scal, "words": words, "file_type": root.get("type"), "version": root.get("version"),
+            "byte_order": root.get("byte_order"), "header_type": root.get("header_type"), "encoding": "raw",
+            "head": raw[:m.end()], "tail": trailer, "body_bytes": end}
 
 
 # ----------------------------------------------------------------------------- the property
@@ -374,30 +549,65 @@ class C16(Prop):
     anchored = ["src/pewlib/io/textimage.py", "src/pewlib/io/vtk.py"]
     cases = {"quick": 800, "thorough": 12000}
     rule = ("text: images from 1x1 (single rows and columns forced) with special values (denormals, +-max, -0.0, NaN, "
-            "+-inf, arbitrary bit patterns), saved and loaded, plus harness-written files with ',', ';', tab and mixed "
-            "delimiters, among them long files (to beyond 1, 2, 4, 8, 16, 64, 128 KiB) whose second style of separator first "
-            "appears late - commas first and ';'/tab/mixture/one odd separator later, and the reverse; saved arrays also "
-            "Fortran-ordered, transposed, strided, reversed and cropped views; VTK: 2-D and 3-D structured float64 images "
-            "with 1..4 elements whose names need XML escaping, arbitrary spacings, element fields packed in name order, "
-            "multi-field selections of a record laid out in another order (with other members between), dtypes with "
-            "explicit offsets and padding, in every memory order above, read back by an independent VTI reader; "
-            "non-trivial = boundary shape, special value, escaped name, several elements, mixed delimiters or a "
-            "non-default memory layout; distinct by canonical case hash")
-    trusted = ["'%.18g' printing followed by genfromtxt's float conversion is the identity on finite float64, zeros and "
-               "infinities and maps NaN to NaN (the model's opaque fmt/parse with parse (fmt x) = x)",
+            "+-inf, arbitrary bit patterns), saved (with and without a header, also multi-line and data-like ones) and "
+            "loaded; the Lean loader model reads the very characters pewlib wrote (number tokens opaque, converted by "
+            "Python's float) and the Lean rendering of the file is compared with them byte for byte; harness-written "
+            "files with ',', ';', tab and mixed delimiters, among them long files (to beyond 1, 2, 4, 8, 16, 64, 128 KiB) "
+            "whose second style of separator first appears late; files of the class 'delimiter variant of an image' "
+            "written line by line (indentation, padding around fields, comments, blank lines, '\\n' / '\\r\\n' / lone "
+            "'\\r' terminators, no final newline, numbers printed in other forms) and files pushed out of the class "
+            "(trailing delimiters, empty and unparsable fields, ragged rows, nothing but comments) plus arbitrary short "
+            "texts, each read by pewlib and by the Lean loader model, as written and with ';'/tab replaced by ','; saved "
+            "arrays also Fortran-ordered, transposed, strided, reversed and cropped views; VTK: 2-D and 3-D structured "
+            "float64 images with 1..4 elements whose names need XML escaping, integer and float spacings, element fields "
+            "packed in name order, multi-field selections of a record laid out in another order (with other members "
+            "between), dtypes with explicit offsets and padding, in every memory order above; the file is read back by "
+            "an independent VTI reader (every header field, origin and spacing included, against the Lean "
+            "specification), its header text by the Lean reader, and the whole file is compared byte for byte with "
+            "the Lean rendering; non-trivial = boundary shape, special value, escaped name, several elements, mixed "
+            "delimiters, a foreign-file feature or a non-default memory layout; distinct by canonical case hash")
+    trusted = ["'%.18g' printing followed by Python's float is the identity on finite float64, zeros and infinities and maps "
+               "NaN to NaN, and float ignores spaces around a number (the model's opaque fmt/conv: `Clean.roundtrip`, "
+               "the padding hypothesis of `foreign_file_loads`); exercised on every value (`printer_inverted`)",
+               "genfromtxt's loose converter is float with a NaN fallback (harness `pyfloat`, the model's total `conv`)",
+               "savetxt and path.open('r') use the same text encoding, '\\n' is written as '\\n' (POSIX)",
                "xml.etree.ElementTree decodes the five predefined entities (the model's `unescape`)",
                "the independent reader `read_vti` in harness/c16.py"]
     assumptions = ["NaN payload and sign are not part of 'NaN preserved' in the text form",
-                   "Spacing is checked to parse as three floats within 1e-6 relative of the requested spacing, no more"]
+                   "Spacing is checked to parse as three floats within 1e-6 relative of the requested spacing, no more",
+                   "which element the VTK header names as active scalar is not compared (it has to be one of them)",
+                   "the bytes of the saved text file are no observation of the property: a file that differs from the "
+                   "model's rendering only moves the case out of the theorem's reach (hypothesis_excluded), the "
+                   "loader model then reads that file",
+                   "warnings and exception classes of the loader on files outside the property's class are not compared",
+                   "headers holding a carriage return and element names holding control or white-space characters "
+                   "other than a space are not generated (see notes/D16.md: pewlib does not round-trip them)"]
+
+    def known(self, case, out):
+        """inputs on which pewlib is known not to meet the property text (ids take effect only once known_findings.json
+        lists them)"""
+        if case.get("kind") == "text" and "\r" in (case.get("header") or ""):
+            return "C16-header-carriage-return"
+        if case.get("kind") == "vtk":
+            bad = [ch for n in case["names"] for ch in n if ch in "\t\r\n" or (ord(ch) < 32)]
+            if any(ch in "\t\r\n" for ch in bad) and all(ch in "\t\r\n" for ch in bad):
+                return "C16-name-white-space"
+            if bad:
+                return "C16-name-control-character"
+        return None
 
     # ------------------------------------------------------------------ generation
     def generate(self, rng, tier):
         k = rng.random()
+        if k < 0.12:
+            return gen_foreign(rng)
+        if k < 0.16:
+            return gen_rawtext(rng)
         if k < 0.40:
             r, c = gen_shape2(rng)
             header = None
-            if rng.random() < 0.15:
-                header = "".join(rng.choice("abc XYZ,;#01") for _ in range(rng.randint(1, 8)))
+            if rng.random() < 0.25:  # also multi-line headers and headers that look like data
+                header = "".join(rng.choice(list("abc XYZ,;#01\t") + ["\n", "\n", "1,2", " "]) for _ in range(rng.randint(0, 8)))
             case = {"kind": "text", "rows": r, "cols": c, "vals": gen_vals(rng, r, c), "header": header}
             if rng.random() < 0.35:
                 case["order"] = rng.choice(ORDERS[1:])
@@ -448,6 +658,45 @@ class C16(Prop):
                        "seps": [[DELIMS[(i + j) % 3] for j in range(c - 1)] for i in range(r)]}
         yield {"kind": "text", "rows": 1, "cols": len(SPECIALS), "vals": [tok(v) for v in SPECIALS], "header": "all specials"}
         yield {"kind": "text", "rows": len(SPECIALS), "cols": 1, "vals": [tok(v) for v in SPECIALS], "header": None}
+        # headers: empty, multi-line, ending in a newline, looking like data or like a comment
+        for header in ("", "h", "two\nlines", "ends\n", "\n", "1,2\n3,4", "#", " # x;y\tz", "a\n\nb", "é µ"):
+            yield {"kind": "text", "rows": 2, "cols": 2, "vals": [tok(float(i)) for i in range(4)], "header": header}
+            yield {"kind": "text", "rows": 2, "cols": 1, "vals": [tok(1.5), tok(-2.0)], "header": header}
+        # files other tools wrote, as raw text: each delimiter, mixtures, spaces, CRLF / CR, comments, blank lines,
+        # trailing delimiters, empty and unparsable fields, no final newline, ragged rows, nothing at all
+        for text in ("1;2\n3;4\n", "1\t2\n3\t4\n", "1,2\n3,4\n", "1;2\t3\n4,5;6\n", " 1 , 2 \n3 ,4\n", "  1;2\n", "1,2\r\n3,4\r\n",
+                     "1,2\r3,4\r", "1,2\r\n3,4\r5,6\n7,8", "1,2\n# c\n3,4\n", "1,2 # c\n3,4#\n", "# h1\n# h2\n1;2\n", "1,2\n\n3,4\n",
+                     "1,2\n   \n3,4\n\n", "\n\n1\n", "1,2,\n3,4,\n", "1;2;\n3;4\n", "1,,3\n4,5,6\n", ",\n", ",1\n", "1,x\n", "1,2", "1", "1\n2",
+                     "1,2\n3\n", "1\n2,3\n", "", "\n", "#\n", " ", "\r", "\r\n", "1 2\n", "nan,inf,-inf,NaN,Infinity\n", "1_0,0x10,1e400,١٢\n",
+                     "1\x0c2\n3\n", "1\r\n\r\n2\r\r3", "1#\r2", "1,2\n#3,4,5\n", "1;#2\n3;4\n", " # only a comment", "5\n# end"):
+            yield {"kind": "rawtext", "text": text}
+        # ... and as files of the class, line by line (token, padding, separator, comment, terminator)
+        cell = lambda t, b=0, a=0: {"before": b, "token": t, "after": a}
+        row = lambda toks, seps, eol="\n", indent=0, comment=None, b=0, a=0: {
+            "indent": indent, "cells": [cell(t, b, a) for t in toks], "seps": list(seps), "comment": comment, "eol": eol}
+        skip = lambda eol="\n", indent=0, comment=None: {"indent": indent, "cells": [], "seps": [], "comment": comment, "eol": eol}
+        for eol in ("\n", "\r\n", "\r"):
+            for seps in (",,", ";;", "\t\t", ";\t", ",;"):
+                yield {"kind": "foreign", "lines": [row(["1", "2.5", "-3e-5"], seps, eol), row(["nan", "inf", "-0.0"], seps[::-1], eol)]}
+            yield {"kind": "foreign", "lines": [skip(eol, comment=" header"), row(["1", "2"], ";", eol, indent=2, b=1, a=2),
+                                                skip(eol), skip(eol, indent=3), row(["3", "4"], "\t", eol, comment=" 5;6"),
+                                                skip(eol, comment=""), row(["5", "6"], ",", "")]}
+            yield {"kind": "foreign", "lines": [row(["7"], "", eol), row(["8"], "", eol, comment="x")]}
+            yield {"kind": "foreign", "lines": [row(["7"], "", eol), skip("")]}
+        yield {"kind": "foreign", "lines": [row(["1", "2"], ",", "\r"), skip("\n"), row(["3", "4"], ",", "\n")]}  # "\r" then "\n": one terminator
+        yield {"kind": "foreign", "lines": [row(["1", "2", ""], ",,"), row(["3", "4", ""], ";;")]}  # trailing delimiter: a third column
+        yield {"kind": "foreign", "lines": [row(["1", "", "3"], ",,"), row(["4", "x", "6"], ",,")]}
+        yield {"kind": "foreign", "lines": [row(["1", "2"], ","), row(["3"], "")]}  # ragged
+        yield {"kind": "foreign", "lines": [skip(comment="nothing"), skip()]}
+        yield {"kind": "foreign", "lines": []}
+        # witnesses of registered known findings (run only once known_findings.json lists them)
+        registered = {k["id"] for k in core.load_known() if k.get("property") == "C16" and k.get("kind") == "known"}
+        if "C16-header-carriage-return" in registered:
+            yield {"kind": "text", "rows": 2, "cols": 1, "vals": [tok(1.0), tok(2.5)], "header": "a\r5"}
+        if "C16-name-white-space" in registered:
+            yield {"kind": "vtk", "shape": [1, 1], "names": ["a\tb"], "vals": [[tok(1.0)]], "spacing": [1, 1, 1]}
+        if "C16-name-control-character" in registered:
+            yield {"kind": "vtk", "shape": [1, 1], "names": ["a\x01b"], "vals": [[tok(1.0)]], "spacing": [1, 1, 1]}
         # vtk: every small shape, one and two elements, names with each special character
         for shape in ([1, 1], [1, 4], [4, 1], [2, 3], [3, 2], [1, 1, 1], [1, 1, 3], [2, 3, 4], [3, 1, 2], [1, 3, 2]):
             size = int(np.prod(shape))
@@ -491,8 +740,11 @@ class C16(Prop):
 
     # ------------------------------------------------------------------ evaluation
     def evaluate(self, case, ctx):
-        if case["kind"] == "vtk":
+        kind = case["kind"]
+        if kind == "vtk":
             return self.eval_vtk(case, ctx)
+        if kind in ("foreign", "rawtext"):
+            return self.eval_foreign(case, ctx)
         from pewlib.io import textimage
 
         r, c = case["rows"], case["cols"]
@@ -500,7 +752,9 @@ class C16(Prop):
         arr = np.array([untok(t) for t in toks], dtype=np.float64).reshape(r, c)
         path = ctx.tmpdir() / "image.csv"
         feats = shape_features(r, c) | classify(toks)
-        if case["kind"] == "text":
+        extra_impl, extra_model = {}, {}
+        if kind == "text":
+            header = case["header"]
             if case.get("order", "C") != "C":  # the same image in another memory layout
                 try:
                     laid = alloc([r, c], np.float64, case["order"])
@@ -510,46 +764,92 @@ class C16(Prop):
                 arr = laid
                 feats |= {"text:order=" + case["order"]} | layout_features(arr, "text:")
             try:
-                if case["header"] is None:
+                if header is None:
                     textimage.save(path, arr)
                 else:
-                    textimage.save(path, arr, header=case["header"])
-                    feats.add("header")
+                    textimage.save(path, arr, header=header)
+                    feats.add("header" + (":multi-line" if "\n" in header else ""))
             except Exception as e:
                 return outcome({"raises": True, "where": "save", "type": type(e).__name__}, None, None, spec_ok=False, model_ok=False)
-            rep = ctx.driver.call("c16.text", rows=r, cols=c, data=toks, header=case["header"])
+            text = read_chars(path)  # the bytes pewlib wrote
+            tokens = ["%.18g" % untok(t) for t in toks]  # the model's opaque printer, evaluated by Python
+            rep = ctx.driver.call("c16.text", rows=r, cols=c, tokens=tokens, header=header or "", file=text)
+            # the theorem speaks about the model's rendering: it covers this very file when the two are the same bytes
+            same = rep["rendered"] == text
+            feats.add("save:file=model-rendering" if same else "save:file!=model-rendering")
+            hyp = same and rep["clean"]
+            # the trusted part of `Clean`: Python's float inverts '%.18g' on these values
+            extra_impl["printer_inverted"] = [ctok(float(t)) for t in tokens] == toks
+            extra_model["printer_inverted"] = True
         else:
-            lines = []
-            for i in range(r):
-                fields = [repr(float(v)) for v in arr[i]]
-                out = fields[0]
-                for s, f in zip(case["seps"][i], fields[1:]):
-                    out += s + f
-                lines.append(out + "\n")
-            path.write_text("".join(lines))
-            feats |= switch_features("".join(lines))
+            tokens = [repr(float(v)) for v in arr.ravel()]
+            text = "".join(join_with(case["seps"][i], tokens[i * c:(i + 1) * c]) + "\n" for i in range(r))
+            path.write_text(text, newline="")
+            feats |= switch_features(text)
             used = {s for row in case["seps"] for s in row}
             feats.add("delims:" + ("none" if not used else "mixed" if len(used) > 1 else {",": "comma", ";": "semicolon", "\t": "tab"}[used.pop()]))
-            rep = ctx.driver.call("c16.delims", rows=r, cols=c, data=toks, seps=case["seps"])
-        note = ""
+            rep = ctx.driver.call("c16.delims", rows=r, cols=c, tokens=tokens, seps=case["seps"], file=text)
+            hyp = rep["rendered"] == text and rep["clean"]
+            if rep["rendered"] != text:  # only a hand-written replay gets here (separator lists that do not fit the columns)
+                return outcome(None, None, None, spec_ok=True, model_ok=True, undetermined=True, hyp=False,
+                               note="bad case: the harness file is not the model's saveWith rendering")
+        impl, _, note = run_load(path)
+        model = conv_side(rep["real"])
+        spec_fields = rep["spec"]
+        spec = {"shape": spec_fields["shape"], "data": [ctok(pyfloat(f)) for f in spec_fields["fields"]], "dtype": "float64"}
+        if conv_side(rep["model"]) != spec:  # the loader model on the model's own rendering: equal by theorem
+            note = (note + " the loader model on the model's rendering differs from the specification (Clean violated?)").strip()
+            hyp = False
+        for d, extra in ((impl, extra_impl), (model, extra_model), (spec, extra_model)):
+            d.update(extra)
+        return outcome(impl, model, spec, hyp=hyp, features=feats, note=note)
+
+    def eval_foreign(self, case, ctx):
+        """files other tools wrote: pewlib's loader and the Lean loader model read the same characters; both also read
+        the file with ';' and tab replaced by ',' (the model's `normalise`), which must load to the same"""
+        tmp = ctx.tmpdir()
+        if case["kind"] == "foreign":
+            text = foreign_text(case["lines"])
+            rep = ctx.driver.call("c16.foreign", lines=case["lines"], file=text)
+            if rep["rendered"] != text:
+                raise AssertionError("harness and model writers of a foreign file disagree")
+            in_class = bool(rep["in_class"])
+            feats = foreign_features(text, case["lines"]) | {"foreign:in-class" if in_class else "foreign:outside-class"}
+        else:
+            text = case["text"]
+            rep = ctx.driver.call("c16.rawtext", file=text)
+            in_class = False
+            feats = foreign_features(text) | {"foreign:raw-text"}
         try:
-            out = textimage.load(path)
-            impl = {"shape": list(out.shape), "data": [ctok(v) for v in out.ravel()], "dtype": str(out.dtype)}
-        except Exception as e:
-            impl = {"raises": True}
-            note = f"{type(e).__name__}: {e}"[:200]
-        model = dict(rep["model"])
-        spec = dict(rep["spec"])
-        if "shape" in model:
-            model["dtype"] = "float64"
-        spec["dtype"] = "float64"
-        return outcome(impl, model, spec, features=feats, note=note)
+            (tmp / "image.csv").write_text(text, newline="")
+            (tmp / "comma.csv").write_text(rep["comma"], newline="")
+        except UnicodeEncodeError as e:
+            return outcome(None, None, None, spec_ok=True, model_ok=True, undetermined=True, hyp=False, note=f"bad case: {e}")
+        impl_a, warned, note_a = run_load(tmp / "image.csv")
+        impl_b, _, note_b = run_load(tmp / "comma.csv")
+        impl = {"as_written": impl_a, "with_commas": impl_b}
+        model = {"as_written": conv_side(rep["real"]), "with_commas": conv_side(rep["real_comma"])}
+        if in_class:
+            sf = rep["spec"]
+            img = {"shape": sf["shape"], "data": [ctok(pyfloat(f)) for f in sf["fields"]], "dtype": "float64"}
+            spec = {"as_written": img, "with_commas": img}
+        else:  # the property does not say what such a file is: the model is all there is to compare with
+            spec = model
+        for k in ("as_written",):
+            side = model[k]
+            if "raises" in side:
+                feats.add("foreign:raises")
+            elif rep["real"]["warns"]:  # the warning is no observation of the property: counted, not compared
+                feats.add("foreign:empty")
+                feats.add("foreign:empty:warning-as-modelled" if warned else "foreign:empty:warning-not-as-modelled")
+            else:
+                feats |= shape_features(*side["shape"]) | classify(side["data"])
+        return outcome(impl, model, spec, hyp=in_class, features=feats, note=(note_a + " " + note_b).strip())
 
     def eval_vtk(self, case, ctx):
         from pewlib.io import vtk
 
         shape, names = case["shape"], case["names"]
-        size = int(np.prod(shape))
         layout, order = case.get("layout"), case.get("order", "C")
         try:
             data = build_structured(shape, names, case["vals"], layout, order)
@@ -560,42 +860,76 @@ class C16(Prop):
         note = ""
         n0, n1 = shape[0], shape[1]
         n2 = shape[2] if len(shape) == 3 else 1
-        rep = ctx.driver.call("c16.vtk", n0=n0, n1=n1, n2=n2,
-                              fields=[{"name": n, "data": vals} for n, vals in zip(names, case["vals"])])
-
-        def view(side):
-            return {"extent": side["extent"], "arrays": side["arrays"], "appended": side["appended"],
-                    "ncells_times_8": [side["extent"][0] * side["extent"][1] * side["extent"][2] * 8] * len(names),
-                    "wellformed": True, "spacing_ok": True, "decodes_to_source": True, "scalars_known": True}
-
+        endian = "LittleEndian" if sys.byteorder == "little" else "BigEndian"  # the model's opaque byte-order token
+        sp_tokens = [str(x) for x in spacing]  # the model's opaque spacing tokens: what an f-string prints
+        raw, f, real_head = b"", None, ""
         try:
             vtk.save(path, data, spacing)
             raw = path.read_bytes()
             f = read_vti(raw)
-            ext_ok = f["whole"][0::2] == [0, 0, 0] and f["piece"] == f["whole"]
-            nx, ny, nz = f["whole"][1::2]
-            dec_ok = True
-            if ext_ok:
-                for n, a in zip(names, f["arrays"]):
-                    if len(a["values"]) != nx * ny * nz or (nx, ny, nz) != (n1, n0, n2):
-                        dec_ok = False
-                        continue
-                    # x fastest, then y, then z; x along columns, y counted from the bottom row
-                    cube = np.array(a["values"], dtype="<i8").reshape((nz, ny, nx))
-                    src = np.array(case["vals"][names.index(n)], dtype="<i8").reshape(n0, n1, n2)
-                    back = cube.transpose(1, 2, 0)[::-1, :, :]
-                    dec_ok = dec_ok and bool(np.array_equal(back, src))
-            impl = {"extent": [nx, ny, nz], "arrays": f["arrays"], "appended": f["words"],
-                    "ncells_times_8": [f["ncells"] * 8] * len(f["arrays"]), "wellformed": bool(ext_ok),
-                    "spacing_ok": all(core.close(x, float(y), rel=1e-6) for x, y in zip(f["spacing"], spacing)),
-                    "decodes_to_source": dec_ok, "scalars_known": f["scalars"] in [a["name"] for a in f["arrays"]]}
+            real_head = f["head"].decode()
         except Malformed as e:
-            impl = {"wellformed": False}
+            impl, f = {"wellformed": False}, None
             note = f"malformed: {e}"
         except Exception as e:
-            impl = {"raises": type(e).__name__}
+            impl, f, real_head = {"raises": type(e).__name__}, None, ""
             note = str(e)[:200]
-        feats = shape_features(n0, n1) | {"vtk", f"vtk:{len(shape)}-D", f"vtk:elements={min(len(names), 3)}{'+' if len(names) > 3 else ''}"}
+        rep = ctx.driver.call("c16.vtk", n0=n0, n1=n1, n2=n2, endian=endian, spacing=sp_tokens, head=real_head,
+                              fields=[{"name": n, "data": vals} for n, vals in zip(names, case["vals"])])
+        want_spacing = [tok(float(t)) for t in sp_tokens]
+
+        def num(tokens, reference=None):
+            """header numbers as bit tokens; a spacing within 1e-6 (relative) of the requested one counts as that one"""
+            try:
+                vals = [float(t) for t in tokens]
+            except ValueError:
+                return ["unparsable"] + list(tokens)
+            if reference is not None and len(vals) == len(reference) and \
+                    all(core.close(v, untok(r), rel=1e-6) for v, r in zip(vals, reference)):
+                return list(reference)
+            return [tok(v + 0.0) for v in vals]
+
+        def meta_view(m):
+            return {**{k: m[k] for k in ("file_type", "version", "byte_order", "header_type", "whole", "piece", "encoding")},
+                    # which element is the active scalar is no part of the property: it has to be one of them
+                    "scalars_is_an_element": m["scalars"] in [a["name"] for a in m["arrays"]],
+                    "origin": num(m["origin"]), "spacing": num(m["spacing"], want_spacing),
+                    "arrays": [{k: a[k] for k in ("name", "type", "format", "offset")} for a in m["arrays"]]}
+
+        def view(side):
+            """one side of the driver's reply in the form the independent reader's findings are put in"""
+            if "meta" not in side:
+                return side
+            ext = side["meta"]["whole"]
+            ncells8 = (ext[1] - ext[0]) * (ext[3] - ext[2]) * (ext[5] - ext[4]) * 8 if len(ext) == 6 else None
+            return {"meta": meta_view(side["meta"]), "blocks": side["blocks"], "appended": side["appended"],
+                    "ncells_times_8": [ncells8] * len(side["meta"]["arrays"]), "lean_reader": meta_view(side["meta"])}
+
+        model, spec = view(rep["model"]), view(rep["spec"])
+        hyp = False
+        feats = set()
+        if f is not None:
+            et_meta = {**{k: f[k] for k in ("file_type", "version", "byte_order", "header_type", "whole", "piece", "scalars", "encoding")},
+                       "origin": [repr(x) for x in f["origin"]], "spacing": [repr(x) for x in f["spacing"]], "arrays": f["arrays"]}
+            impl = {"meta": meta_view(et_meta),
+                    "blocks": [{"nbytes": a["nbytes"], "values": a["values"]} for a in f["arrays"]],
+                    "appended": f["words"], "ncells_times_8": [f["ncells"] * 8] * len(f["arrays"]),
+                    # the model's own reader on the real header text; None when the text is outside the line-per-tag subset
+                    "lean_reader": meta_view(rep["real_meta"]) if rep["real_meta"] is not None else None}
+            if rep["real_meta"] is None:
+                feats.add("vtk:header-outside-lean-reader-subset")
+                impl["lean_reader"] = impl["meta"]  # the independent reader's view stands in; nothing compared twice
+            # the model's rendering of the whole file against the bytes pewlib wrote
+            r = rep["rendered"]
+            if r is not None:
+                bo = "<" if endian == "LittleEndian" else ">"
+                mine = r["head"].encode() + b"".join(struct.pack(bo + "q", int(w)) for w in r["words"]) + r["tail"].encode()
+                same = mine == raw
+                feats.add("vtk:file=model-rendering" if same else "vtk:file!=model-rendering")
+                if not same and r["head"].encode() == f["head"]:
+                    feats.add("vtk:header-text=model-rendering")
+                hyp = same and bool(rep["head_ok"])
+        feats |= shape_features(n0, n1) | {"vtk", f"vtk:{len(shape)}-D", f"vtk:elements={min(len(names), 3)}{'+' if len(names) > 3 else ''}"}
         if n2 > 1:
             feats.add("vtk:nz>1")
         feats |= {"vtk:layout=" + ("packed" if layout is None else layout["via"]), "vtk:order=" + order} | layout_features(data, "vtk:")
@@ -605,13 +939,49 @@ class C16(Prop):
             feats.add("vtk:name-contains-entity-text")
         if any(math.isnan(untok(t)) for vals in case["vals"] for t in vals):
             feats.add("value:nan")
+        if any(not isinstance(x, float) for x in spacing):
+            feats.add("vtk:integer-spacing")
         feats |= {x for vals in case["vals"] for x in classify(vals)}
-        model, spec = view(rep["model"]), view(rep["spec"])
-        return outcome(impl, model, spec, features=feats, note=note)
+        return outcome(impl, model, spec, hyp=hyp, features=feats, note=note)
 
     # ------------------------------------------------------------------ shrinking
     def shrink(self, case):
         one = tok(1.0)
+        if case["kind"] == "rawtext":
+            t = case["text"]
+            n = len(t) // 2
+            while n >= 1:
+                for i in range(0, len(t), n):
+                    yield {**case, "text": t[:i] + t[i + n:]}
+                n //= 2
+            return
+        if case["kind"] == "foreign":
+            lines = case["lines"]
+            for i in range(len(lines)):
+                yield {**case, "lines": lines[:i] + lines[i + 1:]}
+            width = max([len(ln["cells"]) for ln in lines] + [0])
+            for j in range(width):
+                if width > 1:  # drop a column everywhere
+                    yield {**case, "lines": [{**ln, "cells": ln["cells"][:j] + ln["cells"][j + 1:], "seps": ln["seps"][1:]}
+                                             if len(ln["cells"]) > 1 else ln for ln in lines]}
+            for i, ln in enumerate(lines):
+                simpler = []
+                if ln["comment"] is not None:
+                    simpler.append({**ln, "comment": None})
+                if ln["indent"]:
+                    simpler.append({**ln, "indent": 0})
+                if ln["eol"] not in ("\n", ""):
+                    simpler.append({**ln, "eol": "\n"})
+                if any(s != "," for s in ln["seps"]):
+                    simpler.append({**ln, "seps": ["," for _ in ln["seps"]]})
+                for j, c in enumerate(ln["cells"]):
+                    if c["before"] or c["after"]:
+                        simpler.append({**ln, "cells": ln["cells"][:j] + [{**c, "before": 0, "after": 0}] + ln["cells"][j + 1:]})
+                    if c["token"] != "1":
+                        simpler.append({**ln, "cells": ln["cells"][:j] + [{**c, "token": "1"}] + ln["cells"][j + 1:]})
+                for x in simpler:
+                    yield {**case, "lines": lines[:i] + [x] + lines[i + 1:]}
+            return
         if case["kind"] in ("text", "delims"):
             r, c = case["rows"], case["cols"]
             grid = [case["vals"][i * c:(i + 1) * c] for i in range(r)]
